@@ -22,6 +22,7 @@ ACCESSOR_LABEL = {
     "<u8 as From<bool>>::from": "bool01",
     "<T as ToString>::to_string": "decimal_text", "<BigInt as ToBytes>::to_be_bytes": "signed_be_bytes",
     "BigInt::to_signed_bytes_be": "signed_be_bytes",
+    "DateTime<Tz>::timezone#FixedOffset": "offset", "DateTime<Tz>::timezone#Tz": "tz<tz_id<offset",
     "NaiveDateTime::date": "date", "NaiveDateTime::time": "time", "checked_naive_local": "local_datetime",
     "DateTime<Tz>::naive_utc": "utc_datetime", "DateTime<Tz>::offset": "offset", "char::encode_utf16": "utf16_unit",
     "<TzOffset as OffsetName>::tz_id": "tz_id", "<Tz as FromStr>::from_str": "tz",
@@ -40,6 +41,12 @@ CTOR_LABEL = {
     ("<Tz as FromStr>::from_str", 0): "tz_name", ("Uuid::from_bytes", 0): "uuid_bytes", ("Uuid::from_u128", 0): "uuid_u128", ("str::parse", 0): "decimal_text",
     ("BigInt::from_signed_bytes_be", 0): "signed_be_bytes", ("char::decode_utf16", 0): "utf16_unit",
     ("char::from_u32", 0): "utf16_unit",      # for a 16-bit argument: None exactly on the surrogate range, like decode_utf16
+    # synonyms inside chrono (read off its source: each is defined in terms of the entry it stands for)
+    ("NaiveDate::and_time", 0): "date", ("NaiveDate::and_time", 1): "time",                       # == NaiveDateTime::new
+    ("TimeZone::timestamp_opt", 1): "secs", ("TimeZone::timestamp_opt", 2): "nanos",              # Utc: == from_timestamp
+    ("NaiveDateTime::and_local_timezone", 0): "local_datetime", ("NaiveDateTime::and_local_timezone", 1): "offset",
+    ("NaiveDateTime::and_utc", 0): "utc_datetime", ("DateTime<Tz>::with_timezone", 1): "tz",      # == tz.from_utc_datetime
+    ("<Month as TryFrom<u8>>::try_from", 0): "month_1",
 }
 
 
@@ -60,8 +67,42 @@ def _label(term):
     return "<".join(labs) if labs else None
 
 
+def _peel_casts(t):
+    t = strip_refs(t)
+    while isinstance(t, tuple) and t[0] == "cast" and t[1] == "IntToInt":
+        t = strip_refs(t[4])
+    return t
+
+
+def _derived_label(term):
+    """components obtained by arithmetic on another accessor, for the few cases chrono documents:
+    num_days_from_monday() + 1 == number_from_monday();  s = num_seconds_from_midnight(): s / 3600 == hour(),
+    s / 60 % 60 == minute(), s % 60 == second()"""
+    t = _peel_casts(term)
+    if not (isinstance(t, tuple) and t[0] == "bin"):
+        return None
+    op, l, r = t[1].replace("WithOverflow", ""), _peel_casts(t[2]), t[3]
+    k = _const(r)
+
+    def is_call(x, key):
+        return isinstance(x, tuple) and x[0] == "call" and x[1] == key and x[3] and strip_refs(x[3][0])[0] == "arg"
+    if op == "Add" and k == 1 and is_call(l, "Weekday::num_days_from_monday"):
+        return "weekday_from_monday_1"
+    secs = "<NaiveTime as Timelike>::num_seconds_from_midnight"
+    if op == "Div" and k == 3600 and is_call(l, secs):
+        return "hour"
+    if op == "Rem" and k == 60 and is_call(l, secs):
+        return "second"
+    if op == "Rem" and k == 60 and isinstance(l, tuple) and l[0] == "bin" and l[1].replace("WithOverflow", "") == "Div" and \
+            _const(l[3]) == 60 and is_call(_peel_casts(l[2]), secs):
+        return "minute"
+    return None
+
+
 def _accessor_key(x):
     key = x[1]
+    if key == "DateTime<Tz>::timezone" and len(x) > 5 and x[5]:
+        key = "%s#%s" % (key, mir.short(x[5][0].get("s", "?")))
     if key == "str::parse" and len(x) > 5 and x[5]:
         # s.parse::<F>() is <F as FromStr>::from_str(s)
         key = "<%s as FromStr>::from_str" % mir.short(x[5][0].get("s", "?"))
@@ -330,7 +371,7 @@ def _abstract_writer(ev, self_is_bytes=False, path=None):
             if c is not None:
                 out.append(("w", kind, ("const", c)))
                 continue
-            lab = _label(term)
+            lab = _derived_label(term) or _label(term)
             if kind == "bytes":
                 out.append(("w", "bytes", ("payload", _payload_name(term)) if lab is None else ("label", lab)))
                 continue
@@ -349,7 +390,7 @@ def _abstract_writer(ev, self_is_bytes=False, path=None):
             else:
                 out.append(("w", kind, ("label", lab or _plain_self(term))))
         elif e[0] == "sub":
-            out.append(("sub", e[1], _label(e[2])))
+            out.append(("sub", e[1], _derived_label(e[2]) or _label(e[2])))
         elif e[0] == "seqw":
             out.append(("seqw",))
     return out
